@@ -228,6 +228,21 @@ class Item:
             n += 1
         return self
 
+    def stub_body(self, where, fname=None):
+        """Contract-only copy of a function: the body is replaced by `unimplemented!()` and the function marked
+        external_body; `where` names the unit in which the same text is verified against the same contract."""
+        if hasattr(self, '_splices'):
+            raise ExtractError('%s: stub_body after ghost splices' % self.name)
+        s = Src(self.text, self.name)
+        if fname is None:
+            fname = find_code(s.text, s.mask, r'\bfn\s+(\w+)', regex=True)[0].group(1)
+        st, sig_end, bo, bc = s.find_fn(fname)
+        ls = s.text.rfind('\n', 0, st) + 1
+        indent = s.text[ls:st] if s.text[ls:st].strip() == '' else ''
+        self.text = s.text[:st] + '#[verifier::external_body]\n' + indent + s.text[st:bo] + '{ unimplemented!() }' + s.text[bc + 1:]
+        self.log.append(('R5', 'body of %s not taken into this unit (contract only): it is verified against the same contract in unit `%s`' % (fname, where)))
+        return self
+
     def rw_from_fn(self, n, ty, expect=None):
         """R9: `core::array::from_fn(|_| BODY)` (an FnMut closure capturing `&mut` state, outside Verus's subset) becomes
         the loop std documents it to be: BODY evaluated `n` times in increasing index order, results collected in order:
